@@ -554,7 +554,7 @@ def nr_uks_nldf(
                 rho = (rho_a, rho_b)
                 if ni.has_sdmx:
                     sdmx_feat = ni.sdmxgen.get_features(
-                        dm_for_sdmx[i],
+                        dm_for_sdmx[idm],
                         mol,
                         coords,
                         ao=sdmx_ao,
@@ -571,14 +571,14 @@ def nr_uks_nldf(
                     xctype=xctype,
                 )[:2]
                 if ni.has_sdmx:
-                    ni.sdmxgen.get_vxc_(vmat[:, i], vxc_sdmx * weight)
+                    ni.sdmxgen.get_vxc_(vmat[:, idm], vxc_sdmx * weight)
                 vxc_nldf_full[idm, ..., ip0:ip1] = vxc_nldf * weight
                 den_a = rho_a[0] * weight
                 den_b = rho_b[0] * weight
-                nelec[0, i] += den_a.sum()
-                nelec[1, i] += den_b.sum()
-                excsum[i] += np.dot(den_a, exc)
-                excsum[i] += np.dot(den_b, exc)
+                nelec[0, idm] += den_a.sum()
+                nelec[1, idm] += den_b.sum()
+                excsum[idm] += np.dot(den_a, exc)
+                excsum[idm] += np.dot(den_b, exc)
                 wva_full[idm, :, ip0:ip1] = weight * vxc[0]
                 wvb_full[idm, :, ip0:ip1] = weight * vxc[1]
             ip0 = ip1
